@@ -35,6 +35,7 @@ int flavour_of(int method) {
 	}
 }
 enum { ORD_PRE, ORD_POST, ORD_ANY };
+bool is_phase_method(int m) { return m == M_PRE_UPDATE || m == M_UPDATE || m == M_POST_UPDATE || m == M_PRE_REACT || m == M_REACT || m == M_POST_REACT || m == M_QUERY; }
 int order_of(int method) {
 	switch (method) {
 	case M_ENTRY_GUARD: case M_ENTER: case M_REENTER: case M_PRE_UPDATE: case M_UPDATE: case M_PRE_REACT: case M_REACT: return ORD_PRE;
@@ -64,7 +65,7 @@ struct Mon {
 	std::vector<LogEv> exp;          // expected records; ctx_ok == 2 marks an optional one
 	bool stop = false;
 	std::set<std::string> seen;
-	bool cycle_fail_call = false, cycle_succ_call = false, own_fail = false;
+	bool cycle_fail_call = false, cycle_succ_call = false, own_fail = false, other_fail = false;
 	const unsigned N, C, L;
 	const bool plans, history, root_outcomes;
 	int expect_result = -1;          // result the next view must report for the previous action
@@ -204,7 +205,7 @@ struct Mon {
 
 	void report(int id, bool success, const HookEv& e, const Ctx& cx) {
 		if (success) { bit_set(T.mayS, static_cast<unsigned>(id), true); cycle_succ_call = true; if (cx.phase && e.cls == T.open && id == T.open) bit_set(T.mustS, static_cast<unsigned>(id), true); }
-		else { bit_set(T.mayF, static_cast<unsigned>(id), true); cycle_fail_call = true; if (cx.phase && e.cls == T.open && id == T.open) own_fail = true; }
+		else { bit_set(T.mayF, static_cast<unsigned>(id), true); cycle_fail_call = true; if (cx.phase && e.cls == T.open && id == T.open) own_fail = true; if (cx.phase && e.cls == T.open && id != T.open) other_fail = true; }
 		explog(LOG_TASK_STATUS, id, success ? 0 : 1, hi + 1);
 		g_stats.hit(success ? "reports_success" : "reports_failure");
 	}
@@ -222,7 +223,7 @@ struct Mon {
 		else { expect_result = 0; mark_nontrivial("plan_appends_refused_at_capacity"); }
 	}
 	// plan().clear() also withdraws the reports made so far: the must-ledgers (subset side) are reset, the may-ledgers (superset side) stay
-	void mirror_clear_user() { T.mirror.clear(); memset(T.mustS, 0, 32); own_fail = false; }
+	void mirror_clear_user() { T.mirror.clear(); memset(T.mustS, 0, 32); own_fail = false; other_fail = false; }
 
 	void apply_action(const HookEv& e, Ctx& cx) {
 		const SutAction& a = e.action;
@@ -323,6 +324,8 @@ struct Mon {
 			if (k == 0) want = own_inj(cls);
 			if (want >= 0 && e->inj != want) viol("C15", "injection-order", std::string(METHOD_NAMES[method]) + "(" + sid(cls) + "): position " + S(j) + " ran " + (e->inj ? "injection " + S(e->inj) : std::string("the state's own callback")) + ", expected " + (want ? "injection " + S(want) : std::string("the state's own callback")));
 			if (seen_mask & (1u << e->inj)) viol("C15", "each-once", std::string(METHOD_NAMES[method]) + "(" + sid(cls) + ") ran " + (e->inj ? "injection " + S(e->inj) : std::string("the state's own callback")) + " twice in one delivery");
+			if ((seen_mask & (1u << e->inj)) && e->inj == 0 && is_phase_method(method))
+				viol("C05", "each-phase-callback-once", std::string(METHOD_NAMES[method]) + " of state " + sid(cls) + " ran twice in one " + (method == M_QUERY ? "query()" : "cycle") + " (each phase callback runs exactly once)");
 			seen_mask |= 1u << e->inj;
 			invocation(cx);
 		}
@@ -418,6 +421,7 @@ struct Mon {
 		const int a = T.open;
 		const bool fail_out = cycle_fail_call || (a >= 0 && bit_get(T.mayF, static_cast<unsigned>(a)));
 		const bool succ_out = cycle_succ_call || (a >= 0 && bit_get(T.mayS, static_cast<unsigned>(a)));
+		if (other_fail && !own_fail && !cycle_succ_call && !T.mirror.empty()) g_stats.hit("failures_of_other_states_reported_by_active_state");
 		const HookEv* nx = peek();
 		const bool head_must_fire = !T.mirror.empty() && a >= 0 && T.mirror[0].origin == a && bit_get(T.mustS, static_cast<unsigned>(a)) && !cycle_fail_call && !bit_get(T.mayF, static_cast<unsigned>(a));
 		// a plan outcome is seen as a callback of the root head, or (machines whose root defines no such callback, verbose
@@ -455,6 +459,9 @@ struct Mon {
 		}
 		if ((root_outcomes || (g_case_vlog && T.logger)) && !T.mirror.empty() && own_fail)
 			viol("C09", "planFailed-on-own-failure", "the active state reported failure with a non-empty plan but planFailed() was not delivered in that cycle");
+		// the active state reporting the failure of another state's task: judged only in cycles without any success report
+		if ((root_outcomes || (g_case_vlog && T.logger)) && !T.mirror.empty() && other_fail && !own_fail && !cycle_succ_call)
+			viol("C09", "planFailed-on-reported-failure", "a callback of the active state reported a task failure (of another state) with a non-empty plan but planFailed() was not delivered in that cycle");
 		// which tasks disappeared in the plan step?
 		const PlanSnap* p1 = 0;
 		if (nx) { if (nx->flavour != CF_CONST && nx->plan.available) p1 = &nx->plan; } else if (x.after.valid) p1 = &x.after.plan;
